@@ -330,6 +330,122 @@ def c18(out):
     out.append("")
 
 
+# ---- C15: every iteration over a randomly seeded std HashMap/HashSet in the build pipeline ----------
+C15_FILES = ["cfgrammar/src/lib/yacc/ast.rs", "cfgrammar/src/lib/yacc/grammar.rs", "cfgrammar/src/lib/yacc/parser.rs",
+             "cfgrammar/src/lib/yacc/firsts.rs", "cfgrammar/src/lib/yacc/follows.rs", "cfgrammar/src/lib/header.rs",
+             "lrtable/src/lib/pager.rs", "lrtable/src/lib/itemset.rs", "lrtable/src/lib/statetable.rs",
+             "lrtable/src/lib/stategraph.rs", "lrtable/src/lib/mod.rs",
+             "lrpar/src/lib/ctbuilder.rs", "lrpar/src/lib/cpctplus.rs", "lrpar/src/lib/parser.rs",
+             "lrpar/src/lib/dijkstra.rs", "lrpar/src/lib/mf.rs", "lrpar/src/lib/lex_api.rs",
+             "lrlex/src/lib/ctbuilder.rs", "lrlex/src/lib/lexer.rs", "lrlex/src/lib/parser.rs"]
+_ITER = r"\.(?:iter|iter_mut|keys|values|values_mut|into_iter|into_keys|into_values|drain)\((?:\.\.)?\)"
+
+
+def c15_sites():
+    """(file, enclosing fn, normalised source line) of every place where something that is (or contains) a std
+    `HashMap`/`HashSet` with the default `RandomState` hasher is iterated, in non-test code. Names are
+    collected per file from declarations (`name: ..HashMap<`, `let [mut] name = HashSet::new()`,
+    `let [mut] name: ..HashMap`, `fn name(..) -> ..HashMap<`) plus the cross-file accessors below."""
+    sites = []
+    texts = {}
+    for path in C15_FILES:
+        try:
+            texts[path] = src(path)
+        except OSError:
+            continue
+    fields = set()
+    for text in texts.values():
+        # struct fields / parameters of hash type are visible from other files (`ast.implicit_tokens`, ...)
+        for m in re.finditer(r"\bpub\s+(\w+)\s*:\s*(?:Option<\s*)?Hash(?:Map|Set)\s*<(?![^;\n]*BuildHasherDefault)", text):
+            fields.add(m.group(1))
+    for path, text in texts.items():
+        cut = re.search(r"\n#\[cfg\(test\)\]\s*\n(?:pub(?:\([^)]*\))?\s+)?mod tests?\b", text)
+        if cut:
+            text = text[:cut.start()]
+        text = re.sub(r"//[^\n]*", "", text)
+        names = set()
+        for m in re.finditer(r"\b(\w+)\s*:\s*[^;=\n{]*?\bHash(?:Map|Set)\s*<", text):
+            names.add(m.group(1))
+        for m in re.finditer(r"\blet\s+(?:mut\s+)?(\w+)\s*(?::[^=;]*)?=\s*[^;]*?\bHash(?:Map|Set)\b", text):
+            names.add(m.group(1))
+        for m in re.finditer(r"\bfn\s+(\w+)\s*(?:<[^>]*>)?\s*\([^)]*\)\s*->\s*[^{;]*?\bHash(?:Map|Set)\s*<", text):
+            names.add(m.group(1) + "()")
+        # maps reached through accessors / closure parameters defined in another file
+        names |= {"edges()", "tokens_map()", "token_map()", "rule_ids_map", "owned_map", "edges", "gc_edges"} | fields
+        # a custom, unseeded hasher is not a random order: Itemset.items uses BuildHasherDefault<FnvHasher>
+        det = set(re.findall(r"\b(\w+)\s*:\s*HashMap<[^;]*BuildHasherDefault", text))
+        det |= set(re.findall(r"\blet\s+(?:mut\s+)?(\w+)\s*:\s*HashSet<[^;=]*BuildHasherDefault", text, re.S))
+        names -= det
+        names.discard("self")
+        # aliases: `if let Some(a) = &x.name`, `let a = &x.name;`, `for a in name`, `for (i, a) in name.drain(..).enumerate()`
+        for _ in range(4):
+            plain = [re.escape(n) for n in names if not n.endswith("()")]
+            alt = "(?:" + "|".join(plain) + ")"
+            new = set()
+            for m in re.finditer(r"\b(?:if|while)\s+let\s+Some\(\s*(?:ref\s+)?(?:mut\s+)?(\w+)\s*\)\s*=\s*&?(?:mut\s+)?(?:\w+\.)*" + alt + r"(?:\s*\.\s*(?:as_ref|as_mut)\(\))?\s*[{&]", text):
+                new.add(m.group(1))
+            for m in re.finditer(r"\bfor\s+(\w+)\s+in\s+&?(?:mut\s+)?(?:\w+\.)*" + alt + r"\s*\{", text):
+                new.add(m.group(1))
+            for m in re.finditer(r"\bfor\s+\(\s*\w+\s*,\s*(\w+)\s*\)\s+in\s+(?:\w+\.)*" + alt + r"\s*\.\s*(?:drain\(\.\.\)|iter\(\)|into_iter\(\))\s*\.\s*enumerate\(\)", text):
+                new.add(m.group(1))
+            new -= det
+            if new <= names:
+                break
+            names |= new
+        fn = "?"
+        stmts = []
+        # statements: join lines until ';' or '{' so that method chains split over lines are seen whole
+        buf, bfn = "", "?"
+        for line in text.split("\n"):
+            m = re.match(r"\s*(?:pub(?:\([^)]*\))?\s+)?(?:const\s+)?(?:unsafe\s+)?fn\s+(\w+)", line)
+            if m:
+                fn = m.group(1)
+            if not buf:
+                bfn = fn
+            buf += " " + line.strip()
+            if line.rstrip().endswith((";", "{", "}", ",")) and buf.count("(") <= buf.count(")"):
+                stmts.append((bfn, buf.strip()))
+                buf = ""
+        if buf.strip():
+            stmts.append((bfn, buf.strip()))
+        for fn, st in stmts:
+            hit = False
+            for n in names:
+                base = re.escape(n[:-2]) + r"\([^()]*\)" if n.endswith("()") else r"\b" + re.escape(n) + r"\b"
+                tail = r"(?:\s*\[[^\]]*\])?(?:\s*\.\s*(?:as_ref|as_mut|unwrap|borrow|clone|lock|expect)\([^()]*\))*"
+                if re.search(base + tail + r"\s*" + _ITER, st):
+                    hit = True
+                if re.search(r"\bfor\b[^;{]*\bin\s+&?(?:mut\s+)?(?:\w+\.)*" + base + tail + r"\s*\{", st):
+                    hit = True
+                if re.search(r"\.extend\(\s*&?(?:\w+\.)*" + base + tail + r"\s*\)", st):
+                    hit = True
+            if hit:
+                sites.append((path, fn, re.sub(r"\s+", " ", st)[:160]))
+    return sites
+
+
+def c15(out):
+    """cross-check with the audited list (tools/propcfg/C15.py AUDIT): a site that was never classified
+    breaks the tie for C15 (and is reported by every check, since the extraction is shared)."""
+    sys.path.insert(0, os.path.dirname(os.path.abspath(__file__)))
+    try:
+        from propcfg.C15 import AUDIT
+    except ImportError:
+        return
+    sites = c15_sites()
+    known = {(a["file"], a["fn"], a["code"]) for a in AUDIT}
+    wd = os.path.join(VERIF, "work")
+    os.makedirs(wd, exist_ok=True)
+    with open(os.path.join(wd, "hash_iteration_sites.txt"), "w") as f:
+        for s in sites:
+            f.write(("audited    " if s in known else "UNAUDITED  ") + " | ".join(s) + "\n")
+    new = [s for s in sites if s not in known]
+    out.append(f"/-- C15: number of iteration sites over randomly seeded hash collections found in /repo (all audited) -/")
+    out.append(f"def C15_HASH_ITERATION_SITES : Nat := {len(sites)}")
+    out.append("")
+    return new
+
+
 def main():
     out = ["/-! GENERATED by tools/extract.py from /repo on every run. Do not edit. -/", "namespace GrmVerif.Extracted", ""]
     cp = src("lrpar/src/lib/cpctplus.rs")
@@ -342,11 +458,16 @@ def main():
     c11(out)
     c18(out)
     out += c20_guards()
+    unaudited = c15(out)
     out += ["end GrmVerif.Extracted", ""]
     new = "\n".join(out)
     old = open(OUT).read() if os.path.exists(OUT) else None
     if old != new:
         open(OUT, "w").write(new)
+    if unaudited:
+        raise SystemExit("extract: C15: iteration over a randomly seeded HashMap/HashSet that is not in the audited list "
+                         "(tools/propcfg/C15.py AUDIT) - classify it (order-irrelevant / order-relevant) and model it: "
+                         + "; ".join(" | ".join(u) for u in unaudited[:4]))
 
 
 if __name__ == "__main__":
